@@ -119,6 +119,19 @@ PROPS = {
         assumptions=[],
         open=[],
     ),
+    "C04": dict(
+        title="reordering conjuncts/disjuncts (answer multiset)",
+        props_module="PvModel.Props.C04",
+        rule="terminating programs, half pure tree (==, !=, fresh, nested conde) and half FD (the C16 generator incl. conde and structured query "
+             "terms); each run as written and under random permutations of every conjunction and every clause list (all permutations of a "
+             "top-level conjunction of <=3 goals); answers compared as multisets of (canonical terms, truth table of the reported constraints) / "
+             "integer tuples; oracle: equal across orders and equal in size to the brute-force reference; every ordering also goes through the "
+             "model; non-trivial = >=2 answers; distinct = distinct case lines",
+        trusted=SEARCH_TRUST,
+        assumptions=[],
+        open=["conjunct reordering for FD atoms rests on the open global FD invariant (C16/C17); carried by the correspondence and the oracle",
+              "lifting C04_tree from atom lists to conjunctions nested in conde/fresh uses the path decomposition, checked by the oracle only"],
+    ),
     "C01": dict(
         title="unification (State::unify vs unifyF)",
         props_module="PvModel.Props.C01",
